@@ -68,6 +68,19 @@ def check_stats_shapes(run, ctx):
             run.ok('C15-S1', 'reset', 'stores 0 to hits and misses')
         else:
             run.bad('C15-S1', 'reset/shape', 'CacheStats::reset must store 0 to both counters; found stores to %s' % flds, site=body.name)
+    # the counters start at zero
+    newb = ctx.core_fn(S + 'new')
+    n += 1
+    if newb is None:
+        run.bad('C15-S1', 'new/fail-closed', 'fail-closed: CacheStats::new not found')
+    else:
+        ex = Expr(newb)
+        inits = [ex.operand(t['args'][0]) for b, t in newb.calls() if callee_name(t).endswith('::new') and callee_name(t).startswith(ATOMIC)]
+        if len(inits) == 2 and all(i[0] == 'const' and i[1] == 0 for i in inits):
+            run.ok('C15-S1', 'new', 'both counters start at 0')
+        else:
+            run.bad('C15-S1', 'new/initial-value', 'CacheStats::new must start both counters at 0 (found %s): hits + misses would differ from the lookups performed from the start'
+                    % [show(i) for i in inits], site=newb.name, oracle='AtomicU64::new(0) twice')
     # registry
     R = 'cachelito_core::stats_registry::'
     for fn in ('reset', 'get'):
